@@ -1,0 +1,14 @@
+//go:build verif
+
+package worker
+
+import fpgo "github.com/TeaEntityLab/fpGo/v2"
+
+func verifPoint(point string) { fpgo.VerifPoint(point) }
+
+// VerifCounts exposes the worker bookkeeping of a DefaultWorkerPool under its lock.
+func (workerPoolSelf *DefaultWorkerPool) VerifCounts() (workerCount int, workerBusy int) {
+	workerPoolSelf.lock.RLock()
+	defer workerPoolSelf.lock.RUnlock()
+	return workerPoolSelf.workerCount, workerPoolSelf.workerBusy
+}
